@@ -22,20 +22,22 @@ const (
 
 // CalculateLoRaAirtime calculates the airtime for a LoRa modulated frame.
 func CalculateLoRaAirtime(payloadSize, sf, bandwidth, preambleNumber int, codingRate CodingRate, headerEnabled, lowDataRateOptimization bool) (time.Duration, error) {
-	symbolDuration := CalculateLoRaSymbolDuration(sf, bandwidth)
-	preambleDuration := CalculateLoRaPreambleDuration(symbolDuration, preambleNumber)
-	if sf <= 6 {
-		// SF5 and SF6 (SX126x / SX128x / LR11xx): the preamble takes
-		// n + 6.25 instead of n + 4.25 symbols.
-		preambleDuration += 2 * symbolDuration
-	}
-
 	payloadSymbolNumber, err := CalculateLoRaPayloadSymbolNumber(payloadSize, sf, codingRate, headerEnabled, lowDataRateOptimization)
 	if err != nil {
 		return 0, err
 	}
 
-	return preambleDuration + (time.Duration(payloadSymbolNumber) * symbolDuration), nil
+	// Number of symbols (in 1/100): preamble n + 4.25 (n + 6.25 for SF5 and
+	// SF6: SX126x / SX128x / LR11xx) and payload.
+	symbols := int64(100*preambleNumber + 425 + 100*payloadSymbolNumber)
+	if sf <= 6 {
+		symbols += 200
+	}
+
+	// One division at the end: for bandwidths that do not divide 2^SF * 10^6
+	// (812, 1625 kHz) the symbol duration is not a whole number of ns and
+	// must not be truncated before it is multiplied by the symbol count.
+	return time.Duration(symbols * (int64(1) << uint(sf)) * 1000000 / (100 * int64(bandwidth))), nil
 }
 
 // CalculateLoRaSymbolDuration calculates the LoRa symbol duration.
